@@ -101,14 +101,19 @@ claim("C04", "other",
       "contract-based deductive verification (z3+cvc5, nonlinear real lemmas over trig axioms) + bounded native evaluation of processing-level consequences", "DESIGN.md 5/C04")
 
 claim("C05", "other",
-      "Proof: _nth_std_factory returns mean + n std (normal) / exp(log mean + n std) (lognormal, for both spellings) and raises "
+      "Proof: _nanmean_weighted and _nanstd_weighted, for every NaN-free sample of any size >= 2 passed without explicit weights (what the "
+      "HvsrTraditional peak accessors pass), return S(g)/n resp. exp(S(log)/n) and sqrt(SS(g, mean) / ((1 - 1/n) n)) - arithmetic / geometric "
+      "mean and the n-1 sample standard deviation of g(values) about their mean, g = identity or log, for 'normal', 'lognormal' and "
+      "'log-normal' (the sums over the sample are named, np.nansum over the elements trusted; the NaN-aware weight construction is executed "
+      "symbolically under the NaN-free precondition; the pre/post function maps are checked structurally); _nth_std_factory returns mean + n "
+      "std (normal) / exp(log mean + n std) (lognormal, for both spellings) and raises "
       "NotImplementedError for any other name; the DISTRIBUTION_MAP aliases (structural); +-n symmetry lemmas. Cross-check / bounded "
       "(labelled): every statistic of HvsrTraditional (means, sample standard deviations, +-n values, covariance, mean / std / nth-std "
       "curves, mean-curve peak, for 'normal', 'lognormal' and 'log-normal') equals the textbook estimator applied to exactly the accepted "
       "windows after random histories (peak-range updates, frequency-domain rejection, manual rejections, mask replacement), equals the "
       "statistic of an object built from the accepted windows alone, accessors are read-only, lognormal frequency/period consistency. The "
-      "vectorised NaN-aware numpy code (boolean-mask compress, nansum, np.cov) is outside the PyVC subset. Known finding F-9 is reported "
-      "by its own clause.",
+      "mask selections of the accessors, the curve statistics (axis=0), np.cov and the explicitly weighted (azimuthal) uses are bounded only. "
+      "Known finding F-9 is reported by its own clause.",
       TB + "numpy nansum / cov external; the cross-check bound: 4-11 windows x 20-50 samples, up to 6 history steps per object.",
       "contract-based deductive verification of the distribution-dependent formulas + native evaluation of the estimator contracts over mask histories", "DESIGN.md 5/C05")
 
